@@ -226,11 +226,12 @@ static void enumerate(int p, int variants)
 /* ---- report() alone ---- */
 static void check_report(int wstat, const char *s, int len)
 {
-  char sbuf[4096]; substdio ss; char copy[64]; int j = 0, k, result = -2; char want, key[200];
-  memcpy(copy, s, len);
+  char sbuf[4096]; substdio ss; char *copy = malloc(len ? len : 1); int j = 0, k, result = -2; char want, key[200];
+  if (!copy) h_real_exit(2);
+  memcpy(copy, s, len);   /* exactly len bytes on the heap: reading behind the output is a sanitizer report */
   rep_len = 0; substdio_fdbuf(&ss, repwr, -1, sbuf, sizeof sbuf);
   snprintf(h_cur, sizeof h_cur, "c09 report wstat=%d out=%s", wstat, H_ESC(s, len));
-  report(&ss, wstat, copy, len); substdio_flush(&ss);
+  report(&ss, wstat, copy, len); substdio_flush(&ss); free(copy);
   n_eval++;
   /* reference: qmail-remote(8) RESULTS + qmail-rspawn's documented fallbacks */
   if (wstat & 127) want = 'Z';
